@@ -583,7 +583,13 @@ def oracle_c03(scn, hist):
             if (o, sid) in info['local_close']:
                 continue   # simultaneous / both-side closes: prefix only (checked by C01's oracle)
             if (side, sid) not in E or not any(f[1] != 0 for f in E[(side, sid)]):
-                continue   # the close did not put a closing frame on the wire (already closed)
+                # no closing frame on the wire: fine if the stream was already closed at that side or never
+                # existed there; on a healthy session the FIRST Close of an open stream must send its notice
+                firstx = next((h for h in hist if h['step'].split(':')[:3] == ['X', side, str(sid)]), None)
+                if firstx and firstx['ret'] and firstx['ret'][0] not in (6,) and (side, sid) in W or (firstx and firstx['ret'] and firstx['ret'][0] == 4 and any(
+                        h['step'].split(':')[0] == 'O' and h['ret'] and h['ret'][0] == 0 and h['ret'][1] == sid and h['step'].split(':')[1] == side for h in hist)):
+                    return ('close-not-sent', 'stream %d: %s closed it on a healthy session (Close returned code %d) but no closing notice was put on the wire: the peer never learns of the close' % (sid, side, firstx['ret'][0]))
+                continue
             want = W.get((side, sid), '')
             got = R.get((o, sid), '')
             if got != want:
